@@ -193,7 +193,8 @@ impl CodeCache {
 
     let space_remaining = available_length - write_cursor;
     if space_remaining < MEMORY_MINIMUM_SIZE {
-      println!("Running out of space, only {} bytes left", space_remaining);
+      // stdout carries the guest's serial output; diagnostics go to stderr
+      eprintln!("Running out of space, only {} bytes left", space_remaining);
     }
 
     Some(starting_offset)
